@@ -719,8 +719,10 @@ class CSSSerializer:
             stacks = []
             for item in rule.seq:
                 type_, val = item.type, item.value
+                # content of a string or URI is no block delimiter
+                isblock = type_ not in ('STRING', 'URI')
                 # PRE
-                if '}' == val:
+                if '}' == val and isblock:
                     # close last open item on stack
                     stackblock = stacks.pop().value()
                     if stackblock:
@@ -737,7 +739,7 @@ class CSSSerializer:
                     out.append(val, type_)
 
                 # POST
-                if '{' == val:
+                if '{' == val and isblock:
                     # new stack level
                     stacks.append(Out(self))
 
